@@ -153,7 +153,7 @@ def run(ctx):
             ctx.sample({"api": api, "conf": conf, "src": src[:160], "shape": shape(ctx._last_tokens)[:300] if hasattr(ctx, "_last_tokens") else ""}, every=1499)
     # dedicated inline nests: images in links in images, emphasis x strikethrough runs, linkify
     confs = [W.PANEL[2], W.PANEL[6], W.PANEL[1], {"preset": "gfm-like", "stub_linkify": True, "options": {"typographer": True}}]
-    atoms = ["![", "[", "](u)", "](u \"t\")", "*", "**", "_", "~~", "~~~~~", "~", "`", "a", " ", "http://x.y/z", "www.ex.com", "a@b.co",
+    atoms = ["![", "[", "](u)", "](u \"t\")", "*", "**", "_", "~~", "~~~~~", "~", "~~~", "~~a~~~", "~~~]", "***", "__", "`", "a", " ", "http://x.y/z", "www.ex.com", "a@b.co",
              "<http://q.r>", "\\*", "&amp;", "<b>", "</a>", "<a href=x>", "!", "]", "[r]", "\n"]
     for _ in range(ctx.scale(60000, 1500000)):
         src = "".join(rng.choice(atoms) for _ in range(rng.randint(2, 14)))
